@@ -86,6 +86,7 @@ type iterState struct {
 	slots []iterSlot // map
 	str   *StringV
 	pos   int
+	posT  *Term // UTF-8 mode: byte offset of the next rune (symbolic)
 }
 type iterSlot struct {
 	visit *Term
